@@ -24,7 +24,7 @@ REQUIRED = ["programs", "view:serialize", "view:deserialization_schema", "view:s
             "form:inheritance-override", "form:inheritance-base-mapping", "form:resolver-serialized", "programs_with_chain", "programs_with_before_of_attached", "programs_n5",
             "programs_with_absent_target", "programs_presence_variant", "programs_alias", "programs_object_refs", "illformed:cycle", "illformed_programs_observed", "nontrivial_permutations"]
 RULE = ("classes with n fields + @serialized/@resolver methods (n <= 4 exhaustive over the splits fields/methods; n = 5 sampled), each element with no order, order(v) v in {-1,0,1,999}, "
-        "order(after=x) or order(before=x) for any other element x (chains included; cycles, self references and unknown targets have no specified position: only "nothing lost, nothing duplicated, same permutation in every view" is checked on them); the same effective ordering expressed as field metadata, "
+        "order(after=x) or order(before=x) for any other element x (chains included; cycles, self references and unknown targets have no specified position: only -- nothing lost, nothing duplicated, same permutation in every view -- is checked on them); the same effective ordering expressed as field metadata, "
         "as a class-level mapping overriding decoy metadata (full / one element), as a class-level sequence, and across a base/sub class pair (field metadata, base mapping inherited, "
         "sub mapping overriding base mapping); variants with a field skipped in one direction / init=False, aliased fields, targets given as Field objects. "
         "A case = (program, view); non-trivial when the expected sequence differs from declaration order or an attachment is present; distinct by hash.")
